@@ -20,6 +20,7 @@ import (
 
 // Workload identifies one mode-A run (replay re-runs it; schedules differ).
 type Workload struct {
+	Kind    string `json:"kind,omitempty"` // "" windows, "hammer", "api" (stress.go; Windows = operations per goroutine)
 	Seed    uint64 `json:"seed"`
 	G       int    `json:"g"`
 	Windows int    `json:"windows"`
